@@ -13,17 +13,20 @@ IsEvent(e) == l <= Len(Rec) /\ Rec[l].ev = e /\ l' = l + 1
 
 TraceInit == l = 1 /\ OInit
 
-TxRec(by, ins, wal, outwal, feerate, valid, final, sweep, dup, h) ==
+\* feerate: of the package the transaction forms with its unconfirmed parents; own: its own; inval: the
+\* value it spends
+TxRec(by, ins, wal, outwal, feerate, valid, final, sweep, dup, h, own, weight, inval) ==
   [by |-> by, ins |-> ins, wal |-> wal, nout |-> Len(outwal), outwal |-> outwal, feerate |-> feerate,
-   ok |-> valid /\ final, valid |-> valid, final |-> final, sweep |-> sweep, dup |-> dup, bh |-> h]
+   ok |-> valid /\ final, valid |-> valid, final |-> final, sweep |-> sweep, dup |-> dup, bh |-> h,
+   own |-> own, weight |-> weight, inval |-> inval, onrb |-> FALSE]
 
 TOpen == IsEvent("open") /\
   Open([kind |-> R.kind, live |-> ToSet(R.live), owner |-> R.owner, delays |-> R.delays,
-        anti_reorg |-> R.anti_reorg, chan_type |-> R.chan_type, h |-> R.h])
+        anti_reorg |-> R.anti_reorg, chan_type |-> R.chan_type, h |-> R.h, est |-> R.est])
 
 TBcast == IsEvent("bcast") /\
   Bcast(R.tx, TxRec(R.by, R.ins, R.wal, [k \in 1..Len(R.outs) |-> R.outs[k].wal], R.pfeerate,
-                    R.valid, R.final, FALSE, R.dup, R.h))
+                    R.valid, R.final, FALSE, R.dup, R.h, R.feerate, R.weight, R.inval))
 
 TCommit == IsEvent("commit") /\
   Commit([tx |-> R.tx, owner |-> R.owner, revoked |-> R.revoked, h |-> R.h, outs |-> R.outs,
@@ -36,7 +39,7 @@ TPreimage == IsEvent("preimage") /\ Preimage(R.node, R.hash)
 TSpendable == IsEvent("spendable") /\ Spendable(R.node, R.outs)
 TSweep == IsEvent("sweep") /\
   Sweep(R.node, R.tx, TxRec(R.node, R.ins, [k \in 1..Len(R.ins) |-> FALSE], <<TRUE>>, 0,
-                            R.valid, R.final, TRUE, FALSE, R.h),
+                            R.valid, R.final, TRUE, FALSE, R.h, 0, 1, 0),
         R.ok /\ R.valid /\ R.final /\ R.fee >= 0)
 TBal == IsEvent("bal") /\ Balances(R.node, R.items)
 TState == IsEvent("state") /\ Checkpoint(R.h)
@@ -44,11 +47,13 @@ TFinal == IsEvent("final") /\ Final(R)
 TBump == IsEvent("bump") /\ Bump(R.node, R.claim, R.target, ToSet(R.ops))
 TRewind == IsEvent("rewind") /\ Rewind(R.h)
 TRebroadcast == IsEvent("rebroadcast") /\ Rebroadcast(R.node)
-TSilent == l <= Len(Rec) /\ Rec[l].ev \in {"reload", "feerate", "ldk_log"} /\ l' = l + 1 /\ Silent
+TFeerate == IsEvent("feerate") /\ Feerate(R.node, R.v)
+TGaveUp == IsEvent("ldk_log") /\ GaveUp(R.node)
+TSilent == l <= Len(Rec) /\ Rec[l].ev \in {"reload"} /\ l' = l + 1 /\ Silent
 \* `panic` and `commit_unknown` have no action: a run containing one is rejected
 
 TraceNext == TOpen \/ TBcast \/ TCommit \/ TBlock \/ TIdle \/ TJump \/ TPreimage \/ TSpendable \/ TSweep
-             \/ TBal \/ TState \/ TFinal \/ TBump \/ TRewind \/ TRebroadcast \/ TSilent
+             \/ TBal \/ TState \/ TFinal \/ TBump \/ TRewind \/ TRebroadcast \/ TFeerate \/ TGaveUp \/ TSilent
 
 TraceSpec == TraceInit /\ [][TraceNext]_tvars
 
